@@ -194,6 +194,33 @@ func (ca *caSet) chain(key crypto.Signer, n int, cn string, ski []byte, usage x5
 
 // chainUntil is chain with an explicit end of the leaf's validity.
 func (ca *caSet) chainUntil(key crypto.Signer, n int, cn string, ski []byte, usage x509.KeyUsage, notAfter time.Time) ([]*x509.Certificate, error) {
+	return ca.chainUntilVia(key, n, cn, ski, usage, notAfter, time.Time{})
+}
+
+// shortIntermediate sets up an intermediate CA of its own (own key, own name) whose certificate is valid until notAfter:
+// an issuer may well expire before the certificates it issued.
+func (ca *caSet) shortIntermediate(notAfter time.Time) (*x509.Certificate, *ecdsa.PrivateKey, error) {
+	key, err := ecdsa.GenerateKey(elliptic.P256(), rand.Reader)
+	if err != nil {
+		return nil, nil, err
+	}
+	serial := ca.nextSerial()
+	it := &x509.Certificate{
+		SerialNumber: serial, Subject: pkix.Name{CommonName: fmt.Sprintf("verif short-lived intermediate ca %d", serial)},
+		NotBefore: time.Now().Add(-time.Hour), NotAfter: notAfter, IsCA: true, BasicConstraintsValid: true,
+		KeyUsage: x509.KeyUsageCertSign | x509.KeyUsageCRLSign,
+	}
+	der, err := x509.CreateCertificate(rand.Reader, it, ca.root, &key.PublicKey, ca.rootKey)
+	if err != nil {
+		return nil, nil, err
+	}
+	c, err := x509.ParseCertificate(der)
+	return c, key, err
+}
+
+// chainUntilVia is chainUntil for chains of three whose intermediate certificate ends at interNotAfter (zero: the CA's
+// long-lived intermediate certificate).
+func (ca *caSet) chainUntilVia(key crypto.Signer, n int, cn string, ski []byte, usage x509.KeyUsage, notAfter, interNotAfter time.Time) ([]*x509.Certificate, error) {
 	tmpl := &x509.Certificate{
 		SerialNumber: ca.nextSerial(), Subject: pkix.Name{CommonName: cn},
 		NotBefore: time.Now().Add(-time.Hour), NotAfter: notAfter,
@@ -210,7 +237,14 @@ func (ca *caSet) chainUntil(key crypto.Signer, n int, cn string, ski []byte, usa
 	case 2:
 		parent, parentKey, rest = ca.root, ca.rootKey, []*x509.Certificate{ca.root}
 	default:
-		parent, parentKey, rest = ca.inter, ca.interKey, []*x509.Certificate{ca.inter, ca.root}
+		inter, interKey := ca.inter, ca.interKey
+		if !interNotAfter.IsZero() {
+			var err error
+			if inter, interKey, err = ca.shortIntermediate(interNotAfter); err != nil {
+				return nil, err
+			}
+		}
+		parent, parentKey, rest = inter, interKey, []*x509.Certificate{inter, ca.root}
 	}
 	der, err := x509.CreateCertificate(rand.Reader, tmpl, parent, key.Public(), parentKey)
 	if err != nil {
@@ -246,8 +280,14 @@ type genSpec struct {
 	Active  int          `json:"active_entry"`
 	Bad     string       `json:"bad,omitempty"` // non-empty: the store must be rejected by a reload
 	PEM     string       `json:"pem,omitempty"` // only filled in for violation reports
+	// the chain of the active key has a short remaining lifetime: end of the validity of its leaf and (chains of three
+	// whose intermediate certificate ends first) of its intermediate certificate
+	LeafNotAfter  string `json:"active_leaf_valid_until,omitempty"`
+	InterNotAfter string `json:"active_intermediate_valid_until,omitempty"`
 
 	pem []byte
+	// first instant at which a certificate of the active key's chain is no longer valid (zero: days away)
+	validUntil time.Time
 }
 
 // keyPicker hands out pool keys, each at most once per history.
@@ -324,6 +364,8 @@ type storeOpts struct {
 	// ActiveNotAfter (certificates have a validity window; the process may outlive it)
 	ActiveChain    int
 	ActiveNotAfter time.Time
+	// chains of three: the intermediate certificate of the active entry ends at this instant (zero: long-lived)
+	ActiveInterNotAfter time.Time
 	// Relabel != nil: the active entry is the KEY of that entry (the active one of the previous generation) under
 	// another id - the id of an entry is not a function of the key material (X-Key-ID header added / renamed / removed,
 	// certificate with a subject key identifier of its own added / removed). Only without StableKid.
@@ -367,9 +409,12 @@ func buildStore(idx int, o storeOpts, pk *keyPicker, ca *caSet, rng *mrand.Rand)
 		if renew && es.Chain == 0 {
 			es.Chain = 1 + rng.IntN(3)
 		}
-		notAfter := time.Now().Add(48 * time.Hour)
+		notAfter, interNotAfter := time.Now().Add(48*time.Hour), time.Time{}
 		if o.ActiveChain > 0 && e == g.Active {
 			es.Chain, notAfter = o.ActiveChain, o.ActiveNotAfter
+			if es.Chain == 3 {
+				interNotAfter = o.ActiveInterNotAfter
+			}
 		}
 		var ski []byte
 		if es.Chain > 0 {
@@ -384,7 +429,7 @@ func buildStore(idx int, o storeOpts, pk *keyPicker, ca *caSet, rng *mrand.Rand)
 				usage = x509.KeyUsageKeyEncipherment
 			}
 			var err error
-			if es.chain, err = ca.chainUntil(k.Key, es.Chain, fmt.Sprintf("%s-e%d", o.Tag, e), ski, usage, notAfter); err != nil {
+			if es.chain, err = ca.chainUntilVia(k.Key, es.Chain, fmt.Sprintf("%s-e%d", o.Tag, e), ski, usage, notAfter, interNotAfter); err != nil {
 				return nil, err
 			}
 			for _, c := range es.chain {
@@ -459,6 +504,23 @@ func buildStore(idx int, o storeOpts, pk *keyPicker, ca *caSet, rng *mrand.Rand)
 		}
 		blocks = append(blocks, blk)
 		g.Entries = append(g.Entries, es)
+	}
+	// a chain of the active key with a short remaining lifetime: the store can only be loaded before the first of its
+	// certificates ends
+	if o.Bad == "" {
+		for ci, c := range g.Entries[g.Active].chain {
+			if !c.NotAfter.Before(time.Now().Add(time.Hour)) {
+				continue
+			}
+			if g.validUntil.IsZero() || c.NotAfter.Before(g.validUntil) {
+				g.validUntil = c.NotAfter
+			}
+			if ci == 0 {
+				g.LeafNotAfter = c.NotAfter.UTC().Format(time.RFC3339)
+			} else {
+				g.InterNotAfter = c.NotAfter.UTC().Format(time.RFC3339)
+			}
+		}
 	}
 	// certificates follow the keys in random order (the chain is found by search, not by position)
 	rng.Shuffle(len(certBlocks), func(i, j int) { certBlocks[i], certBlocks[j] = certBlocks[j], certBlocks[i] })
